@@ -262,7 +262,8 @@ CLAIMED["C13"]["text"] = ("Full Lean 4 proof for all valid reconciliations over 
     "event statement per node, one loss marker per loss, one arrow per transfer (both orientations).  Real layout.compute / "
     "tikz.render output under a stub measurer is compared with the model.")
 CLAIMED["C13"]["technique"] = "Lean 4 invariant proof over the branch-construction pass + differential correspondence"
-CLAIMED["C14"]["text"] = ("Full Lean 4 proof over exact rationals for positive sizes and non-negative parameters: horizontal layout = "
+CLAIMED["C14"]["text"] = ("Full Lean 4 proof over exact rationals for positive sizes, non-negative parameters and min_subtree_spacing > 0 (with 0 "
+    "sibling boxes touch on the real code): horizontal layout = "
     "transpose of the vertical layout with swapped sizes, sibling boxes disjoint and inside the parent's box, trunks inside "
     "their boxes and pairwise interior-disjoint, branches inside their species' trunk, one entry per species; every "
     "dictionary look-up of _layout_branches / _tikz_draw_branches succeeds for every valid input (C14_anchors; validity and "
@@ -343,6 +344,13 @@ CLAIMED["C16"]["technique"] = "Lean 4 invariant proof over update / operation hi
 CLAIMED["C17"]["text"] += (" Second tie: range_min_query.py is translated mechanically from the source text on every run and the "
     "generated build + query are proved equal to the model, exceptions included (C17Code); graceful fallback as for C18.")
 CLAIMED["C17"]["technique"] = "Lean 4 structural-induction proof + translator-generated equivalence obligations + differential correspondence"
+
+# ---- after the independent reviews (DESIGN 13.8) ----
+CLAIMED["C02"]["text"] += " The result is empty iff no root order is compatible with the leaves iff no valid solution exists (C02_empty_iff, C02_empty_iff_no_valid)."
+CLAIMED["C13"]["text"] += " The event statement of every object node is of the evaluator's KIND (C13_tikz_kind), also on the drawing calls."
+CLAIMED["C15"]["text"] += (" Generated obligations also fix WHICH TikZ statement each template is (statement_heads / statement_count); "
+    "labels are proved balanced for brace-free names and families at any wrap width (C15Label).")
+CLAIMED["C17"]["text"] += " distance(u, v) is the length of the path through the deepest common ancestor and is minimal (C17Dist)."
 
 PENDING = "check not built yet in this round (planned: Lean 4 model + proof + correspondence, see DESIGN.md section 7)"
 
